@@ -85,7 +85,8 @@ class Run(object):
 
     # ---------------------------------------------------------------- trace validation
     def judge(self, module, traces, tables=None, shards=None, canary_ids=(), describe=None,
-              timeout=3600, cfg_extra='', replay_of=None, xmx='1500m', with_tables=True, out_of_scope_devs=()):
+              timeout=3600, cfg_extra='', replay_of=None, xmx='1500m', with_tables=True, out_of_scope_devs=(),
+              advisory=None):
         """Have TLC judge traces.  canary_ids: ids of deliberately corrupted
         traces that MUST be rejected.  Returns verdicts."""
         verdicts, st = tlcrun.validate(module, traces, tables, shards=shards, timeout=timeout,
@@ -132,6 +133,12 @@ class Run(object):
                 why = 'needs-deviation-' + why
             if why.startswith('SELFCHECK'):
                 raise MachineryError('spec self-check failed on trace %r: %s' % (tid, why))
+            if advisory:
+                # a layer that binds an implementation-shaped model to the code: a mismatch means the model no
+                # longer describes the code (reported in the evidence), not that the property is violated
+                d = self.notes.setdefault(advisory, {})
+                d[why] = d.get(why, 0) + 1
+                continue
             path = self.write_replay(tr if replay_of is None else replay_of(tr),
                                      {'module': module, 'event_index': idx, 'failing_clause': why,
                                       'with_tables': with_tables},
